@@ -8,7 +8,7 @@ usage: mkknown.py <dump.json> <what text> [--apply]
 import json, sys, collections
 dump, what = sys.argv[1], sys.argv[2]
 apply = '--apply' in sys.argv
-fs = json.load(open(dump))
+fs = json.load(open(dump)) or []
 by = collections.OrderedDict()
 skipped = 0
 for f in fs:
